@@ -77,6 +77,20 @@ func checkC01(r *harness.Run) harness.Coverage {
 	exprs = append(exprs, numerals...)
 	r.Note("nested_multiselect_trees", len(nested))
 	exprs = append(exprs, nested...)
+	// pumped families: one construct repeated k times, nested or in a row, inside one expression (k from a
+	// fixed size list plus the integer literals of the current tree and their neighbours)
+	kmax := 1100
+	if r.Thorough() {
+		kmax = 5000
+	}
+	ks := pumpKs(kmax)
+	pumped := append(pumpExprs(pumpCore, ks), seqExprs(pumpCoreSeq, ks)...)
+	pumpDocs := univ.Js(`{"a":{"b":1,"a":2},"b":[1,2],"c":{"c":{"c":{"c":3}}}}`, `{"a":[[1,2],[3]],"b":"x","c":1}`, `{"a":null,"b":{"b":0}}`, `{"a":false,"b":null}`, `[1,[2]]`, `null`)
+	st4 := conform(r, pumped, pumpDocs, conformOpts{})
+	st.add(st4)
+	r.Note("pumped_expressions", len(pumped))
+	r.Note("pumped_sizes", ks)
+	exprs = append(exprs, pumped...)
 	finishConform(r, st, nGen+len(exprs), len(docs))
 	sampleExprs(r, samp, docs)
 	return harness.Coverage{Exhaustive: true, Bounds: map[string]interface{}{"expression_weight": maxW, "document_depth": depth, "array_width": 2}, Outcomes: distinctOutcomes(st)}
